@@ -7,6 +7,12 @@ CXX     := g++
 CXXFLAGS:= -std=c++17 -O2 -g -Wall -Wno-unused-function -Wno-missing-field-initializers -I$(REPO)/include -I$(REPO)/igzip -I$(REPO)/erasure_code -I$(REPO)/crc -I$(REPO)/raid -I$(REPO)/mem -Isim $(FLAVOUR_DEFS)
 SRCS    := $(wildcard sim/*.cc)
 OBJS    := $(patsubst sim/%.cc,$(B)/o/%.o,$(SRCS))
+ifeq ($(FLAVOUR),hist8k)
+FLAVOUR_DEFS := -DIGZIP_HIST_SIZE="(8*1024)"
+endif
+ifeq ($(FLAVOUR),longhuff)
+FLAVOUR_DEFS := -DLONGER_HUFFTABLE
+endif
 ifeq ($(FLAVOUR),asan)
 CXXFLAGS += -fsanitize=address -fno-omit-frame-pointer
 SANLD := -fsanitize=address
